@@ -109,8 +109,12 @@ type controller struct {
 	// Called to stop the controller.
 	cancel context.CancelFunc
 
-	// Protects the below map.
+	// Protects the below.
 	mx sync.RWMutex
+
+	// True once the controller has been stopped. A goroutine may still hold a
+	// reference to a stopped controller. It must not start watches for it.
+	stopped bool
 
 	// The controller's sources, by watched GVK.
 	sources map[WatchID]*StoppableSource
@@ -276,6 +280,7 @@ func (e *ControllerEngine) Stop(ctx context.Context, name string) error {
 
 	// Stop and delete the controller.
 	c.cancel()
+	c.stopped = true
 	delete(e.controllers, name)
 
 	e.log.Debug("Stopped controller", "controller", name)
@@ -396,6 +401,12 @@ func (e *ControllerEngine) StartWatches(name string, ws ...Watch) error {
 	// read lock, so we compute everything again.
 	c.mx.Lock()
 	defer c.mx.Unlock()
+
+	// The controller may have been stopped since we released the engine's
+	// lock. Watches started now would never be stopped.
+	if c.stopped {
+		return errors.Errorf("controller %q is not running", name)
+	}
 
 	// Another Goroutine may have started watches, and thereby informers, since
 	// we listed the active informers above. Restarting a watch whose informer
